@@ -145,6 +145,40 @@ def gen():
         return ('Definition gen_lines_after (lines_before buff_lines : Z) : Z := lines_before + buff_lines.\n'
                 'Definition gen_reported_line (local_line lines_before : Z) : Z := local_line + lines_before.\n')
     emit(defs, 'gen_lines_after', lines_counted)
+    def incomplete_rule():
+        # end of file: whatever follows the last complete entry, apart from white space and the format's entry
+        # marker, is reported as an incomplete entry (03a5b64).  Three call sites of __check_nothing_left.
+        chk = find_function(tr, 'NumpyFileReader.__check_nothing_left')
+        src = ast.unparse(chk)
+        lits = [n.value for n in ast.walk(chk) if isinstance(n, ast.Constant) and isinstance(n.value, str) and set(n.value) <= set(' \t\r\n') and n.value]
+        if len(lits) != 1:
+            raise Unsupported('ignored white-space literal not found')
+        if "hasattr(self._buffer_type, '_new_entry_marker')" not in src or 'ignored.append(ord(self._buffer_type._new_entry_marker))' not in src:
+            raise Unsupported('the entry marker is not added to the ignored bytes')
+        if 'np.any(~np.isin(' not in src or 'raise FormatException' not in src:
+            raise Unsupported('the leftover test is not `any byte outside the ignored set -> FormatException`')
+        calls = {}
+        for fn in ('NumpyFileReader.read_chunk', 'NumpyFileReader.read'):
+            f = find_function(tr, fn)
+            cs = [n for n in ast.walk(f) if isinstance(n, ast.Call) and src_of(n.func).endswith('__check_nothing_left')]
+            calls[fn] = [(src_of(c.args[0]).replace(' ', ''), src_of(c.args[1]).replace(' ', '')) for c in cs]
+        want_rc = {('chunk[buff.size:]', 'self.n_lines_read+buff.n_lines'), ('np.concatenate(temp_chunks)', 'self.n_lines_read')}
+        if set(calls['NumpyFileReader.read_chunk']) != want_rc or len(calls['NumpyFileReader.read_chunk']) != 2:
+            raise Unsupported('read_chunk end-of-file checks changed: %s' % calls['NumpyFileReader.read_chunk'])
+        if calls['NumpyFileReader.read'] != [('chunk[buff.size:]', 'self.n_lines_read+buff.n_lines')]:
+            raise Unsupported('read() end-of-file check changed: %s' % calls['NumpyFileReader.read'])
+        # the delivered-buffer check sits in the branch taken when the file is finished, before n_lines_read is advanced
+        f = find_function(tr, 'NumpyFileReader.read_chunk')
+        ifs = [n for n in ast.walk(f) if isinstance(n, ast.If) and src_of(n.test) == 'not self._is_finished' and n.orelse]
+        if len(ifs) != 1 or not src_of(ifs[0].orelse[0]).replace(' ', '').startswith('self.__check_nothing_left(chunk[buff.size:]'):
+            raise Unsupported('the delivered-buffer check is not the else-branch of `if not self._is_finished`')
+        body = f.body
+        pos = {src_of(st).replace(' ', '')[:40]: i for i, st in enumerate(body)}
+        return ('Definition gen_ignored_bytes : list Z := [%s].\n'
+                'Definition gen_incomplete_line (lines_before buff_lines : Z) : Z := lines_before + buff_lines.\n'
+                'Definition gen_pending_incomplete_line (lines_before : Z) : Z := lines_before.\n'
+                % '; '.join(str(ord(c)) for c in lits[0]))
+    emit(defs, 'gen_incomplete_line', incomplete_rule)
 
     # ---- OneLineBuffer.from_raw_buffer / _validate, FastQBuffer._validate
     to = parse('bionumpy/io/one_line_buffer.py')
